@@ -127,14 +127,39 @@ impl<'a> Gen<'a> {
     }
 }
 
+thread_local! {
+    /// the environment the real parser will see, as far as declared variables go (C18)
+    static MODEL_ENV: std::cell::RefCell<std::collections::BTreeMap<String, Vec<u8>>> =
+        std::cell::RefCell::new(std::collections::BTreeMap::new());
+}
+
+pub fn set_model_env(m: std::collections::BTreeMap<String, Vec<u8>>) {
+    MODEL_ENV.with(|e| *e.borrow_mut() = m);
+}
+
+/// value of the first declared variable that is set
+pub fn env_value(names: &Names) -> Option<Vec<u8>> {
+    MODEL_ENV.with(|e| {
+        let e = e.borrow();
+        names.envs.iter().find_map(|n| e.get(n).cloned())
+    })
+}
+
 /// Value of a Spec when nothing on the line belongs to it; None - it fails (required)
 pub fn absent_value(spec: &Spec) -> Option<V> {
     match spec {
-        Spec::Item(i) => match &i.leaf {
-            Leaf::Switch => Some(V::field(i.id, V::Bool(false))),
-            Leaf::Flag => Some(V::field(i.id, V::Tag(2 * i.id))),
-            Leaf::ReqFlag | Leaf::Arg { .. } | Leaf::Pos { .. } => None,
-        },
+        Spec::Item(i) => {
+            let env = env_value(&i.names);
+            match &i.leaf {
+                Leaf::Switch => Some(V::field(i.id, V::Bool(env.is_some()))),
+                Leaf::Flag => Some(V::field(i.id, V::Tag(2 * i.id + u32::from(env.is_some())))),
+                Leaf::ReqFlag => env.map(|_| V::field(i.id, V::Unit)),
+                Leaf::Arg { ty, .. } => env
+                    .and_then(|raw| ty.convert(&raw).ok())
+                    .map(|v| V::field(i.id, v)),
+                Leaf::Pos { .. } => None,
+            }
+        }
         Spec::Wrap { w, id, inner } => {
             let a = absent_value(inner);
             match w {
@@ -213,9 +238,18 @@ fn go(spec: &Spec, g: &mut Gen, present: bool, out: &mut Vec<Atom>) -> Option<V>
     match spec {
         Spec::Item(i) => {
             let group = g.group.unwrap_or(i.id);
+            let env = env_value(&i.names);
+            let nameless = !i.is_pos() && !i.names.has_name();
+            if nameless || (env.is_some() && !present && g.rng.chance(1, 2)) {
+                // nothing on the line: the declared variable (if set) stands in
+                return if present { None } else { absent_value(spec) };
+            }
             match &i.leaf {
                 Leaf::Switch | Leaf::Flag => {
                     let on = g.maybe(present);
+                    if !on && env.is_some() {
+                        return absent_value(spec);
+                    }
                     if on {
                         out.push(Atom::Flag {
                             item: i.id,
